@@ -264,7 +264,21 @@ func TestC05Grid(t *testing.T) {
 func respell(t *rapid.T, d decOperand) (string, *big.Rat) {
 	exact := d.rat()
 	var s string
-	switch rapid.IntRange(0, 8).Draw(t, "spell") {
+	switch rapid.IntRange(0, 9).Draw(t, "spell") {
+	case 9: // digit separators in the coefficient (and in the exponent), with an exponent of either sign
+		co := d.Coef
+		if len(co) >= 2 {
+			at := rapid.IntRange(1, len(co)-1).Draw(t, "sepat")
+			co = co[:at] + "_" + co[at:]
+		}
+		ex := strconv.Itoa(d.Exp)
+		if d.Exp <= -10 || d.Exp >= 10 {
+			ex = ex[:len(ex)-1] + "_" + ex[len(ex)-1:]
+		}
+		s = co + rapid.SampledFrom([]string{"e", "E"}).Draw(t, "emark") + ex
+		if d.Neg {
+			s = "(-" + s + ")"
+		}
 	case 7: // a sign in front of the number written as text: `+'42'` is the number 42, `-'42'` is -42
 		if d.Exp < 0 || len(d.Coef)+d.Exp > 15 {
 			s = d.lit(1)
